@@ -1,6 +1,6 @@
 #!/usr/bin/env python3
 # Generates MANIFEST.json from manifest_src.json (per-property texts) so that the file stays schema-valid.
-import json
+import json, subprocess
 src = json.load(open('/verif/manifest_src.json'))
 props = [json.loads(l)['id'] for l in open('/verif/properties.jsonl')]
 checks = []
@@ -27,7 +27,7 @@ m = {
         "guard": "verif",
         "enable": "go build tag `verif`: comment-only contract files zz_contracts_verif.go (//go:build verif) next to the code they specify; gzv loads packages with -tags=verif",
         "baseline_off_cmd": "for m in $(cat /w/out/gomods.txt); do MF=$(cd /repo/$m && . /w/out/goenv.sh && gomodflag); (cd /repo/$m && go test $MF -json -vet=off -count=1 -timeout 25m ./...); done",
-        "source_commits": src.get('hook_commits', []),
+        "source_commits": subprocess.run(["git","-C","/repo","log","--grep","^verif:","--format=%h"],capture_output=True,text=True).stdout.split(),
         "add_only": True,
     },
     "engines": [{"name": "gzv", "path": "/verif/engine", "serves_properties": [c['property_id'] for c in checks],
